@@ -55,6 +55,14 @@ theorem validate_bounds (payload : Bytes) (toks : List Rain.Bencode.Tok) (rest :
     (∀ n ∈ Rain.Bencode.strLens toks, n ≤ payload.length) ∧ rest.length ≤ payload.length :=
   Rain.Bencode.tokenize_bound h
 
+/-- **validate_depth.** A payload accepted by the guard never opens more than 32 nested lists /
+dictionaries (`nestMax` = deepest level entered while walking the tokens), so the decoder, which
+recurses once per level, recurses at most 32 deep on it. -/
+theorem validate_depth (payload : Bytes) (toks : List Rain.Bencode.Tok) (rest : Bytes)
+    (h : Rain.Bencode.tokenize payload = some (toks, rest)) :
+    Rain.Bencode.nestMax toks 0 ≤ 32 :=
+  Rain.Bencode.tokenize_depth h
+
 /-- Non-vacuity / witnesses: a string announcing 2^31-1 bytes and a nesting of 33 lists are
 refused by the guard (before the fix they reached the decoder: 2 GiB allocation, unbounded
 recursion — findings F-C08R-1, F-C08R-2); 32 levels are accepted. -/
